@@ -5,7 +5,7 @@ from ..spec import And, Or, Not, Implies, Iff, tb, same_type_eq
 from ..values import SymInt, SymBool, SymStr, zint, mkint, mkbool, mkstr, cps_of, zcp
 from .common import LETTERS, DIGITS, isint, isstr
 
-NCOL4 = 26 + 26 ** 2 + 26 ** 3 + 26 ** 4   # 475254 columns of 1..4 letters
+NCOL4 = sum(26 ** k for k in range(1, 8))   # columns of 1..7 letters
 
 
 def letter_digit(c):
@@ -38,13 +38,13 @@ def str_eq_cps(s, cps):
 class ColLabelToIndex(Harness):
     name = 'C19.col_l2i'
     prop = 'C19'
-    doc = 'column_label_to_index on every label of 1..4 letters of either case = bijective base-26 value; and back'
+    doc = 'column_label_to_index on every label of 1..6 / 1..9 letters of either case = bijective base-26 value; and back'
     functions = ('helper.cell.column_label_to_index', 'helper.cell.column_index_to_label')
-    bounds = 'labels of 1..4 ASCII letters, any case mix (all 475254 columns x case variants)'
-    outside = ('columns of 5 or more letters',)
+    bounds = 'labels of 1..6 (quick) / 1..9 (thorough) ASCII letters, any case mix (all columns below 26^7 resp. 26^10 x case variants)'
+    outside = ('columns of 10 or more letters',)
 
     def cases(self, tier):
-        return [{'len': n} for n in (1, 2, 3, 4)]
+        return [{'len': n} for n in range(1, 7 if tier == 'quick' else 10)]
 
     def build(self, e, p):
         return {'label': e.fresh_str('l', p['len'], alphabet=LETTERS)}
@@ -69,9 +69,9 @@ class ColLabelToIndex(Harness):
 class ColIndexToLabel(Harness):
     name = 'C19.col_i2l'
     prop = 'C19'
-    doc = 'column_index_to_label on every index 0 <= i < 475254: letters only, upper case, value i; round trip'
+    doc = 'column_index_to_label on every index 0 <= i < 8353082582 (1..7 letters): letters only, upper case, value i; round trip'
     functions = ('helper.cell.column_index_to_label', 'helper.cell.column_label_to_index')
-    bounds = '0 <= index < 475254 (1..4 letters); negative index gives the empty label'
+    bounds = '0 <= index < 26 + 26^2 + ... + 26^7 (1..7 letters); negative index gives the empty label'
 
     def cases(self, tier):
         return [{'neg': False}, {'neg': True}]
@@ -94,7 +94,7 @@ class ColIndexToLabel(Harness):
         lab, back = out
         if p['neg']:
             return isinstance(lab, str) and lab == ''
-        if not isstr(lab) or not (1 <= len(lab) <= 4):
+        if not isstr(lab) or not (1 <= len(lab) <= 7):
             return False
         cps = cps_of(lab)
         i = zint(inp['i'])
@@ -111,10 +111,10 @@ class ColOrder(Harness):
     prop = 'C19'
     doc = 'order isomorphism: index order = (shorter label first, then alphabetical, case-insensitively); A=0 Z=25 AA=26'
     functions = ('helper.cell.column_label_to_index',)
-    bounds = 'pairs of labels of 1..3 letters (quick) / 1..4 (thorough)'
+    bounds = 'pairs of labels of 1..5 letters (quick) / 1..7 (thorough)'
 
     def cases(self, tier):
-        m = 3 if tier == 'quick' else 4
+        m = 5 if tier == 'quick' else 7
         return [{'la': a, 'lb': b} for a in range(1, m + 1) for b in range(1, m + 1)] + [{'fixed': True}]
 
     def build(self, e, p):
@@ -148,14 +148,14 @@ class Rows(Harness):
     prop = 'C19'
     doc = 'row label <-> zero-based index: label = index + 1, both directions, round trips'
     functions = ('helper.cell.row_label_to_index', 'helper.cell.row_index_to_label')
-    bounds = '0 <= index < 10^7 (1..7 digit labels); labels given as digit strings without leading zeros'
+    bounds = '0 <= index < 10^12 (1..12 digit labels); labels given as digit strings without leading zeros'
 
     def cases(self, tier):
-        return [{'dir': 'i2l'}] + [{'dir': 'l2i', 'nd': k} for k in range(1, 8)]
+        return [{'dir': 'i2l'}] + [{'dir': 'l2i', 'nd': k} for k in range(1, 13)]
 
     def build(self, e, p):
         if p['dir'] == 'i2l':
-            return {'i': e.fresh_int('i', 0, 10 ** 7 - 1)}
+            return {'i': e.fresh_int('i', 0, 10 ** 12 - 1)}
         s = e.fresh_str('r', p['nd'], alphabet=DIGITS)
         e.add(s.cps[0] != 48)
         return {'r': s}
@@ -223,15 +223,16 @@ class ExtractLabel(Harness):
     name = 'C19.extract'
     prop = 'C19'
     doc = 'to_label(*extract_label(l)) = upper(l) with absolute markers reported as written, for every label ' \
-          '$?[A-Za-z]{1,3}$?[1-9][0-9]{0,k}'
+          '$?[A-Za-z]{1,n}$?[1-9][0-9]{0,k}'
     functions = ('helper.cell.extract_label', 'helper.cell.to_label', 'helper.cell.LABEL_EXTRACT_REGEXP',
                  'helper.cell.row_label_to_index', 'helper.cell.column_label_to_index',
                  'helper.cell.row_index_to_label', 'helper.cell.column_index_to_label')
-    bounds = 'column 1..3 letters either case, row 1..4 digits (quick) / 1..7 digits (thorough) without leading zero, all four $ patterns'
+    bounds = 'column 1..5 letters (thorough 1..7) either case, row 1, 2, 4, 7, 8, 10 digits (thorough every 1..12) without leading zero, all four $ patterns'
 
     def cases(self, tier):
-        rows = (1, 2, 4) if tier == 'quick' else (1, 2, 3, 4, 5, 6, 7)
-        return [{'nl': nl, 'nd': nd, 'ca': ca, 'ra': ra} for nl in (1, 2, 3) for nd in rows for ca in (0, 1) for ra in (0, 1)]
+        rows = (1, 2, 4, 7, 8, 10) if tier == 'quick' else tuple(range(1, 13))
+        cols = (1, 2, 3, 4, 5) if tier == 'quick' else (1, 2, 3, 4, 5, 6, 7)
+        return [{'nl': nl, 'nd': nd, 'ca': ca, 'ra': ra} for nl in cols for nd in rows for ca in (0, 1) for ra in (0, 1)]
 
     def build(self, e, p):
         col = e.fresh_str('c', p['nl'], alphabet=LETTERS)
@@ -271,11 +272,11 @@ class NonLabels(Harness):
     doc = 'arbitrary strings (any code points) that are not of the form $?letters$?digits decompose to nothing; ' \
           'strings of that form with a positive row without leading zeros decompose to something'
     functions = ('helper.cell.extract_label', 'helper.cell.LABEL_EXTRACT_REGEXP')
-    bounds = 'all strings of length 0..3 (quick) / 0..4 (thorough) over all 1114112 code points'
+    bounds = 'all strings of length 0..4 (quick) / 0..6 (thorough) over all 1114112 code points'
     outside = ('rows written 0 or with leading zeros are neither required to be accepted nor to be rejected',)
 
     def cases(self, tier):
-        return [{'len': n} for n in range(0, 4 if tier == 'quick' else 5)]
+        return [{'len': n} for n in range(0, 5 if tier == 'quick' else 7)]
 
     def build(self, e, p):
         return {'s': e.fresh_str('s', p['len'])}
